@@ -4,25 +4,28 @@
    [step faults lst o s] runs one Connection operation (execute, begin, commit, rollback, begin_nested,
    rollback / release of the current savepoint) in state [s]; every DBAPI call asks the fault oracle
    [faults : nat -> fault] (indexed by the number of the call) whether it succeeds, raises an error, or raises
-   an error of the disconnect class; [lst] is the handle_error listener.  All theorems hold for EVERY oracle,
-   i.e. for every position of every fault in every history, and for every listener unless stated.  The result
-   code RDisc is "DBAPIError with connection_invalidated=True" (classified as a disconnect after the listeners
-   ran), RErr a DBAPIError not so classified, RPending PendingRollbackError, RInvalidReq InvalidRequestError. *)
+   an error of the disconnect class; [lst] is the chain of handle_error listeners, each assigning (or not)
+   ctx.is_disconnect / ctx.invalidate_pool_on_disconnect and returning None, returning an exception or raising.
+   All theorems hold for EVERY oracle, i.e. for every position of every fault in every history, and for every
+   listener chain unless stated.  Result codes: RDisc "DBAPIError with connection_invalidated=True", RErr a
+   DBAPIError not so classified, RCustom d an exception of a listener replacing an error whose final
+   classification was d, RPending PendingRollbackError, RInvalidReq InvalidRequestError;  [is_disc c] = the error
+   was classified as a disconnect when the handler finished. *)
 From Coq Require Import List Arith Bool.
 Import ListNotations.
 From SAV.engine Require Import Disconnect DisconnectProofs DisconnectSteps DisconnectInv.
 
 (* invalidated_after_disconnect *)
-Theorem c27_invalidated_after_disconnect : forall faults lst o s s',
-  step faults lst o s = (s', RDisc) -> invalidated s' = true.
+Theorem c27_invalidated_after_disconnect : forall faults lst o s s' c,
+  step faults lst o s = (s', c) -> is_disc c = true -> invalidated s' = true.
 Proof. exact invalidated_after_disconnect. Qed.
 Print Assumptions c27_invalidated_after_disconnect.
 
 (* older_pooled_connections_not_reused: after a disconnect hit the live connection (listener did not switch
    invalidate_pool_on_disconnect off), in every continuation every execute / commit / rollback runs on a DBAPI
    connection opened after the failure (ids are handed out in opening order) *)
-Theorem c27_older_pooled_connections_not_reused : forall faults lst o s s1,
-  WF s -> s_cur s <> None -> lst <> 3 -> step faults lst o s = (s1, RDisc) ->
+Theorem c27_older_pooled_connections_not_reused : forall faults lst o s s1 c,
+  WF s -> s_cur s <> None -> pool_inv lst = true -> step faults lst o s = (s1, c) -> is_disc c = true ->
   forall h, exists new,
     s_log (final faults lst h s1) = new ++ s_log s1 /\
     Forall (fun kc => use_kind (fst kc) -> s_nconn s1 <= snd kc) new.
@@ -35,8 +38,8 @@ Proof. intros faults lst w h. exact (wf_final faults lst h (init w) (wf_init w))
 Print Assumptions c27_wf_reachable.
 
 (* blocked_until_rollback: a disconnect that leaves a transaction in progress blocks the connection ... *)
-Theorem c27_disconnect_in_transaction_blocks : forall faults lst o s s',
-  step faults lst o s = (s', RDisc) -> in_txn s' = true -> blocked s'.
+Theorem c27_disconnect_in_transaction_blocks : forall faults lst o s s' c,
+  step faults lst o s = (s', c) -> is_disc c = true -> in_txn s' = true -> blocked s'.
 Proof. exact disconnect_in_transaction_blocks. Qed.
 Print Assumptions c27_disconnect_in_transaction_blocks.
 
@@ -48,13 +51,14 @@ Print Assumptions c27_transaction_survives_failure.
 
 (* ... and from a blocked state, after any operations other than rollback(), every further operation other than
    rollback() reaches NO DBAPI call (log and call counter unchanged), stays blocked, and execute / begin /
-   commit / begin_nested raise (PendingRollbackError; begin: InvalidRequestError), releasing an existing
+   commit / begin_nested raise (PendingRollbackError; begin: InvalidRequestError; commit: possibly the exception a
+   listener substitutes for the PendingRollbackError), releasing an existing
    savepoint raises PendingRollbackError (a savepoint rollback is a silent no-op) *)
 Theorem c27_blocked_until_rollback : forall faults lst s h1 o s2 c,
   blocked s -> ~ In ORollback h1 -> o <> ORollback ->
   step faults lst o (final faults lst h1 s) = (s2, c) ->
   s_log s2 = s_log s /\ s_n s2 = s_n s /\ blocked s2 /\
-  (raising_op o -> c = RPending \/ c = RInvalidReq) /\
+  (raising_op o -> c = RPending \/ c = RInvalidReq \/ exists d, c = RCustom d) /\
   (o = OReleaseSp -> s_nested (final faults lst h1 s) <> [] -> c = RPending).
 Proof. exact blocked_until_rollback. Qed.
 Print Assumptions c27_blocked_until_rollback.
@@ -73,7 +77,8 @@ Theorem c27_reconnects_after_rollback : forall faults lst s, blocked s ->
 Proof. exact reconnects_after_rollback. Qed.
 Print Assumptions c27_reconnects_after_rollback.
 
-(* an invalidated connection WITHOUT a transaction in progress reconnects on the next execute *)
+(* GUARDED: an invalidated connection WITHOUT a transaction in progress reconnects on the next execute - provided
+   no inactive savepoint is (still) current; see c27_reconnect_after_failed_rollback_refuted *)
 Theorem c27_reconnects_when_no_transaction : forall faults lst s,
   s_cur s = None -> s_txn s = TNone -> head_inactive (s_nested s) = false ->
   faults (S (s_n s)) = FOk -> faults (S (S (s_n s))) = FOk ->
@@ -85,22 +90,57 @@ Print Assumptions c27_reconnects_when_no_transaction.
    connection leaves the pool (idle records, invalidation time), the connection in use, the number of opened
    connections and the clock exactly as they were *)
 Theorem c27_non_disconnect_leaves_pool_untouched : forall faults lst o s s' c,
-  s_cur s <> None -> step faults lst o s = (s', c) -> c <> RDisc -> same_pool s s'.
+  s_cur s <> None -> step faults lst o s = (s', c) -> is_disc c = false -> same_pool s s'.
 Proof. exact non_disconnect_leaves_pool_untouched. Qed.
 Print Assumptions c27_non_disconnect_leaves_pool_untouched.
+
+(* REFUTED (reproduced, KNOWN-FINDING C27-failed-rollback-leaves-savepoint): when rollback() itself fails at the
+   DBAPI, RootTransaction._close_impl skips _nested_transaction._cancel(): the savepoint of the rolled-back
+   transaction stays current; if it is inactive (its release failed before) every later execute raises
+   PendingRollbackError although rollback() was called and no transaction is in progress *)
+Definition ex_faults_rb (n : nat) : fault := if Nat.eqb n 2 then FErr else if Nat.eqb n 3 then FDisc else FOk.
+Theorem c27_reconnect_after_failed_rollback_refuted :
+  let r := run ex_faults_rb [] [OSavepoint; OReleaseSp; ORollback; OExec; OExec] (init 1) in
+  map fst r = [ROk; RErr; RDisc; RPending; RPending] /\
+  map (fun cs => in_txn (snd cs)) r = [true; true; false; false; false].
+Proof. vm_compute. auto. Qed.
+Print Assumptions c27_reconnect_after_failed_rollback_refuted.
+
+(* the handle_error listener chain: the classification the handler ends with is the last value assigned by a
+   listener that ran, however the chain ended (all returned None, some returned exceptions, one raised) *)
+Theorem c27_listener_chain_final_classification : forall l d ip e,
+  run_chain l d ip e =
+  (last_set lb_d (executed l) d, last_set lb_p (executed l) ip, e || existsb yields_exn (executed l)).
+Proof. exact chain_final. Qed.
+Print Assumptions c27_listener_chain_final_classification.
+
+(* Connection._is_disconnect is False again after EVERY run of the handler (for every previous value, verdict of
+   the dialect, listener chain, and whether or not the Connection was already invalidated); initially it is the
+   class attribute False: invariant over all histories, which is why the handler model starts from False *)
+Theorem c27_is_disconnect_flag_cleared : forall lst flag d0 inv, flag_after lst flag d0 inv = false.
+Proof. exact flag_after_false. Qed.
+Print Assumptions c27_is_disconnect_flag_cleared.
 
 (* non-vacuity *)
 Definition ex_faults (n : nat) : fault := if Nat.eqb n 2 then FDisc else FOk.
 Example c27_ex_blocked :
-  let r := run ex_faults 0 [OExec; OExec; OExec; OCommit; ORollback; OExec] (init 1) in
+  let r := run ex_faults [] [OExec; OExec; OExec; OCommit; ORollback; OExec] (init 1) in
   map fst r = [ROk; RDisc; RPending; RPending; ROk; ROk] /\
   map (fun cs => invalidated (snd cs)) r = [false; true; true; true; true; false] /\
-  rev (s_log (final ex_faults 0 [OExec; OExec; OExec; OCommit; ORollback; OExec] (init 1))) =
+  rev (s_log (final ex_faults [] [OExec; OExec; OExec; OCommit; ORollback; OExec] (init 1))) =
     [(K_EXEC, 0); (K_EXEC, 0); (K_CLOSE, 0); (K_CLOSE, 1); (K_CONNECT, 2); (K_EXEC, 2)].
 Proof. vm_compute. auto. Qed.
-(* the guard lst <> 3 of c27_older_pooled_connections_not_reused is needed: a listener that switches
+(* the guard pool_inv lst = true of c27_older_pooled_connections_not_reused is needed: a listener that switches
    invalidate_pool_on_disconnect off gets the older pooled connection 1 back *)
 Example c27_ex_listener_keeps_pool :
-  rev (s_log (final ex_faults 3 [OExec; OExec; ORollback; OExec] (init 1))) =
+  rev (s_log (final ex_faults [mkl None (Some false) 0] [OExec; OExec; ORollback; OExec] (init 1))) =
     [(K_EXEC, 0); (K_EXEC, 0); (K_CLOSE, 0); (K_EXEC, 1)].
 Proof. vm_compute. reflexivity. Qed.
+(* a listener that upgrades a plain error to a disconnect AND raises its own exception, inside a transaction: the
+   classification counts - invalidated, blocked until rollback() *)
+Definition ex_faults_err2 (n : nat) : fault := if Nat.eqb n 2 then FErr else FOk.
+Example c27_ex_listener_upgrade_and_raise :
+  let r := run ex_faults_err2 [mkl (Some true) None 2] [OBegin; OExec; OExec; OExec; ORollback; OExec] (init 1) in
+  map fst r = [ROk; ROk; RCustom true; RPending; ROk; ROk] /\
+  map (fun cs => invalidated (snd cs)) r = [false; false; true; true; true; false].
+Proof. vm_compute. auto. Qed.
